@@ -7,9 +7,10 @@ Variables st val expr : Type.
 Variable eval : st -> expr -> st * (val + val).
 Variable truthy : val -> bool.
 Variable poll : st -> st * option val.
+Variable recatch : val -> val.
 Notation stmt := (stmt expr).
-Notation exec_o := (exec_o eval truthy poll).
-Notation exec_s := (exec_s eval truthy poll).
+Notation exec_o := (exec_o eval truthy poll recatch).
+Notation exec_s := (exec_s eval truthy poll recatch).
 
 Definition conv (LS : list label) (c : compl val) : compl val :=
   match c with CBreak t => if mem t LS then CNormal else c | _ => c end.
@@ -79,11 +80,12 @@ Qed.
 
 Lemma nj_scatch t blk r1 c :
   nj_s t (snd r1) -> (forall cb s0, c = Some cb -> nj_s t (snd (blk s0 cb))) ->
-  nj_s t (snd (scatch (val:=val) (expr:=expr) (st:=st) blk r1 c)).
+  nj_s t (snd (scatch (val:=val) (expr:=expr) (st:=st) recatch blk r1 c)).
 Proof.
   intros H1 Hc. unfold scatch. destruct r1 as [s1 [c1|]]; [|destruct c; exact H1].
   destruct c1; destruct c as [cb|]; simpl in *; try assumption; try exact I.
-  now apply Hc.
+  pose proof (Hc cb s1 eq_refl) as H. destruct (blk s1 cb) as [s2 [c2|]]; simpl in *; [|exact I].
+  destruct c2; simpl in *; try assumption; exact I.
 Qed.
 Lemma nj_sfinally t blk r2 f :
   nj_s t (snd r2) -> (forall fb s0, f = Some fb -> nj_s t (snd (blk s0 fb))) ->
@@ -273,20 +275,26 @@ Lemma sim_catch fuel (IH : IHfuel fuel) r1o r1s c G LS :
   simres G LS r1o r1s -> wf_olist c = true ->
   (forall t, In t LS -> targets_olist t c = false) ->
   (forall t, In t G -> targets_olist t c = false) ->
-  simres G LS (ocatch (opolled poll (oblock (exec_o fuel))) r1o c) (scatch (spolled poll (slist (exec_s fuel))) r1s c).
+  simres G LS (ocatch recatch (opolled poll (oblock (exec_o fuel))) r1o c) (scatch recatch (spolled poll (slist (exec_s fuel))) r1s c).
 Proof.
   intros [H1 [H2 H3]] Hwf Hnt HG. destruct r1o as [[s1 L1] ro]. destruct r1s as [s2 rs]. simpl in *. subst s2.
   unfold ocatch, scatch.
   destruct ro as [o|v|]; destruct rs as [cc|]; simpl in H2; try contradiction.
-  - assert (E : match cc, c with CThrow _, Some cb => spolled poll (slist (exec_s fuel)) s1 cb | _, _ => (s1, SDone cc) end = (s1, SDone cc)).
-    { destruct cc; destruct c; try reflexivity. destruct o; simpl in H2; contradiction. }
-    rewrite E. destruct c; repeat split; simpl; assumption.
+  - destruct cc; try (destruct c; repeat split; simpl; assumption).
+    destruct o; simpl in H2; contradiction.
   - destruct cc; try contradiction. subst. destruct c as [cb|].
     + assert (HX : forall t, In t L1 -> targets_list t cb = false).
       { intros t Ht. destruct H3 as [-> | ->]; [|destruct Ht].
         apply in_app_or in Ht as [Ht|Ht]; [apply (HG t Ht)|apply (Hnt t Ht)]. }
-      destruct (sim_pblockX fuel IH cb s1 G LS L1 H3 Hwf HX (fun t Ht => Hnt t Ht)) as (A1 & A2 & A3 & A4).
-      repeat split; try assumption. apply rel_weaken; assumption.
+      pose proof (sim_pblockX fuel IH cb s1 G LS L1 H3 Hwf HX (fun t Ht => Hnt t Ht)) as Hb.
+      destruct (opolled poll (oblock (exec_o fuel)) s1 L1 cb) as [[s3 L3] r3o].
+      destruct (spolled poll (slist (exec_s fuel)) s1 cb) as [s4 r3s].
+      destruct Hb as (A1 & A2 & A3 & A4). simpl in *. subst s4.
+      assert (Hr : rel LS r3o r3s) by (apply rel_weaken; assumption).
+      destruct r3o as [o3|v3|]; destruct r3s as [c3|]; simpl in A2; try contradiction.
+      * destruct c3; destruct o3; simpl in A2; try contradiction; repeat split; simpl; try assumption; exact Hr.
+      * destruct c3; try contradiction. subst. repeat split; simpl; try reflexivity; assumption.
+      * repeat split; simpl; try exact I; assumption.
     + repeat split; simpl; try reflexivity. exact H3.
   - destruct c; repeat split; simpl; try exact I; exact H3.
 Qed.
